@@ -541,8 +541,8 @@ ProcState* ProcFor(std::uint64_t fid) {
 
 int HookPickNext(const std::uint64_t* ids, int n) {
   auto& g = G();
-  if (!g.active) {
-    return -1;
+  if (!g.active || g.root == nullptr) {
+    return -1;  // the root fiber has not introduced itself yet: nothing to decide
   }
   HookGuard hg;
   FlushSlice(g.running);
